@@ -23,9 +23,11 @@ static GLOBAL: arena::Arena = arena::Arena;
 /// warm-up region (never compared).  The tracer sees the store addresses.
 #[unsafe(no_mangle)]
 pub static mut CT_MARK: [u8; 8] = [0; 8];
-/// Sequence number of the current region (read by the gdb stage).
+/// Sequence number of the current region and "inside a compared region" flag (read by the gdb stage).
 #[unsafe(no_mangle)]
 pub static mut CT_SEQ: u64 = 0;
+#[unsafe(no_mangle)]
+pub static mut CT_ACTIVE: u64 = 0;
 
 #[inline(always)]
 fn mark(i: usize) {
@@ -48,9 +50,11 @@ unsafe extern "C" {
 #[inline(never)]
 fn trampoline(f: &dyn Fn(&Slots), s: &Slots, warm: bool) {
     mark(if warm { 2 } else { 0 });
+    unsafe { core::ptr::write_volatile(&raw mut CT_ACTIVE, !warm as u64) };
     arena::enter();
     f(s);
     arena::leave();
+    unsafe { core::ptr::write_volatile(&raw mut CT_ACTIVE, 0) };
     mark(1);
 }
 
@@ -92,11 +96,13 @@ fn select<'a>(reg: &'a [Cell], args: &[String]) -> Vec<(usize, &'a Cell)> {
     let shard = arg(args, "--shard").unwrap_or("0/1".into());
     let (si, sn) = shard.split_once('/').map(|(a, b)| (a.parse::<usize>().unwrap(), b.parse::<usize>().unwrap())).unwrap();
     let only = arg(args, "--only");
+    let ops_file: Option<Vec<String>> = arg(args, "--ops-file").map(|f| std::fs::read_to_string(f).expect("ops file").lines().map(|l| l.trim().to_string()).filter(|l| !l.is_empty()).collect());
     let mut picked: Vec<(usize, &Cell)> = reg
         .iter()
         .enumerate()
         .filter(|(_, c)| tier == "thorough" || c.tier == 0)
         .filter(|(_, c)| only.as_ref().map(|o| c.op.contains(o.as_str())).unwrap_or(true))
+        .filter(|(_, c)| ops_file.as_ref().map(|l| l.iter().any(|o| *o == c.op)).unwrap_or(true))
         .collect();
     // round-robin so that heavy neighbours (inversion, pow) spread over the shards
     picked = picked.into_iter().enumerate().filter(|(k, _)| k % sn == si).map(|(_, x)| x).collect();
